@@ -24,8 +24,9 @@ import (
 // compared in nanoseconds with tolerance 2 ns + 1e-9 relative. The guard
 // `adjusted > 0` is a discontinuity: when the exact adjusted value is within
 // rounding distance of zero (1 ns + 1e-12 of the operand magnitudes) float64
-// may legitimately take either branch, so both are accepted there and the
-// symmetry claim is not asserted (label "guard-ambiguous").
+// may legitimately take either branch, so both are accepted there (label
+// "guard-ambiguous"); symmetry is asserted everywhere, the branch has to be
+// the same in both directions.
 
 type c21Coord struct {
 	Vec    []float64 `json:"vec"`
@@ -252,11 +253,16 @@ func bodyC21(c c21Case, x *vkit.Ctx) {
 			return
 		}
 	}
-	if !ambiguous {
-		if diff := int64(ab) - int64(ba); diff > 1 || diff < -1 {
-			x.Violationf("asymmetric", "dist(a,b)=%d ns, dist(b,a)=%d ns", int64(ab), int64(ba))
-			return
+	// symmetry is asserted everywhere, also next to the adjustment guard: which
+	// branch the guard takes may depend on rounding there, but it has to be the
+	// same branch in both directions
+	if diff := int64(ab) - int64(ba); diff > 1 || diff < -1 {
+		sig := "asymmetric"
+		if ambiguous {
+			sig = "asymmetric-at-adjustment-guard"
 		}
+		x.Violationf(sig, "dist(a,b)=%d ns, dist(b,a)=%d ns (d=%.17g s, a1=%g, a2=%g)", int64(ab), int64(ba), df, c.A.Adj, c.B.Adj)
+		return
 	}
 
 	// labels / non-triviality
